@@ -240,6 +240,9 @@ def _md_states():
             for ids in ('plain', 'punct', 'nonascii', 'long'):
                 for md in ('text', 'tax'):
                     yield {'A': dm.tolist(), 'layout': lay, 'zeros': 'z1', 'ids': ids, 'obs_md': md, 'samp_md': 'text'}
+                # metadata on exactly one axis
+                yield {'A': dm.tolist(), 'layout': lay, 'zeros': 'z1', 'ids': ids, 'obs_md': 'text', 'samp_md': 'none'}
+                yield {'A': dm.tolist(), 'layout': lay, 'zeros': 'z1', 'ids': ids, 'obs_md': 'none', 'samp_md': 'tax'}
 
 
 def filter_cases(tier):
